@@ -76,7 +76,7 @@ def cmevs(ms):
 FAILKINDS = ["NotFound", "Ambiguous", ["Panic", 1], ["Panic", 2]]
 
 
-def gen_attempt(rng, f, r, s, retr, fail_bias, hooks, logs=True):
+def gen_attempt(rng, f, r, s, retr, fail_bias, hooks, logs=True, notfound=False):
     """Events of one attempt of scenario `s` (feature f, rule r or None), canonical order
     (src/runner/basic.rs Executor::run_scenario). Returns (events, failed)."""
     fid, rid, sid = f["id"], (r["id"] if r else None), s["id"]
@@ -105,7 +105,7 @@ def gen_attempt(rng, f, r, s, retr, fail_bias, hooks, logs=True):
                 emit(["Log", rng.randrange(1, 5)])
             x = rng.random()
             if x < fail_bias * 0.35:
-                deferred = [kind, st["id"], ["Failed", rng.choice(FAILKINDS)]]
+                deferred = [kind, st["id"], ["Failed", rng.choice(FAILKINDS if notfound else FAILKINDS[1:])]]
                 failed = True
                 break
             if x < fail_bias * 0.6:
@@ -275,7 +275,7 @@ def arbitrary_stream(rng, feats, n=None):
             pool += [["RuleS", f["id"], r["id"]], ["RuleF", f["id"], r["id"]]]
         for r, s in gens.all_scenarios(f):
             for retr in (None, [0, 1], [1, 0]):
-                evs, _ = gen_attempt(rng, f, r, s, retr, rng.choice([0.3, 1.0]), (True, True))
+                evs, _ = gen_attempt(rng, f, r, s, retr, rng.choice([0.3, 1.0]), (True, True), notfound=True)
                 pool += evs
     pool += [["Started"], ["Finished"], ["ParseErr", 901], ["ParsingFinished", 1, 2, 3, 4, 5]]
     n = rng.randrange(1, 25) if n is None else n
